@@ -3,6 +3,7 @@ package main
 import (
 	"fmt"
 	"runtime"
+	"strconv"
 
 	jmespath "github.com/jmespath/go-jmespath"
 
@@ -485,5 +486,82 @@ func c13(r *mon.Run) {
 			}
 			t.Nontrivial("tsu:" + expr + fmt.Sprint(mode))
 		}}
-	r.Exec(hist, ph, lph, sh, lsh, tsu)
+	// expressions that invite a rewrite at compile time (an index behind a sort, a sort behind a sort, double
+	// negation, an operator applied to twice the same operand, a one-member multi-select indexed at once, a slice
+	// that keeps everything, a length of a filter, a map that is nearly a projection ...) on documents where the
+	// rewritten form would differ: tied keys, nulls among the elements, empty lists, mixed kinds. The compiled
+	// answer and the one-shot answer are both judged (runBoth) - whatever only Compile does must not show.
+	rwTrees, rwDocs := c13Rewritable()
+	rw := mon.Workload{Name: "compiled-versus-one-shot-on-rewritable-shapes", N: len(rwTrees) * len(rwDocs), Batch: 500,
+		Describe: func(i int) string { return gen.Spell(rwTrees[i/len(rwDocs)]) + " on " + ref.Canon(rwDocs[i%len(rwDocs)]) },
+		Do: func(i int, t *mon.Tally) {
+			tree, doc := rwTrees[i/len(rwDocs)], rwDocs[i%len(rwDocs)]
+			cx := &caseCtx{r, t, "compiled-versus-one-shot-on-rewritable-shapes", i}
+			expr := gen.Spell(tree)
+			if i%2 == 1 {
+				expr = gen.SpellTight(tree)
+			}
+			res, _, _ := cx.runBoth(tree, expr, doc)
+			if res.Skipped == "" && !res.DontCare {
+				t.Count("rewritable shapes judged through both entry points")
+				if nonNull(res) {
+					t.Nontrivial("rw:" + strconv.Itoa(i))
+				}
+			}
+		}}
+	r.Exec(hist, ph, lph, sh, lsh, tsu, rw)
+}
+
+// c13Rewritable: see the workload compiled-versus-one-shot-on-rewritable-shapes.
+func c13Rewritable() ([]*gen.Expr, []interface{}) {
+	x, k := func() *gen.Expr { return gen.Field("x") }, func() *gen.Expr { return gen.ExpRef(gen.Field("k")) }
+	nn, ss := func() *gen.Expr { return gen.Field("nn") }, func() *gen.Expr { return gen.Field("ss") }
+	at := func(e *gen.Expr, steps ...gen.Step) *gen.Expr { return gen.Chain(e, steps...) }
+	var trees []*gen.Expr
+	for _, idx := range []int64{-1, 0, 1, -2} {
+		trees = append(trees,
+			at(gen.Func("sort_by", x(), k()), gen.StIndex(idx)), at(gen.Func("sort_by", x(), k()), gen.StIndex(idx), gen.StField("v")),
+			at(gen.Func("sort", nn()), gen.StIndex(idx)), at(gen.Func("sort", ss()), gen.StIndex(idx)), at(gen.Func("reverse", gen.Func("sort", nn())), gen.StIndex(idx)),
+			at(gen.Func("reverse", gen.Func("sort_by", x(), k())), gen.StIndex(idx), gen.StField("v")), at(gen.Func("map", k(), x()), gen.StIndex(idx)),
+			gen.Pipe(at(x(), gen.StListStar(), gen.StField("k")), at(nil, gen.StIndex(idx))), at(gen.Paren(at(x(), gen.StListStar(), gen.StField("k"))), gen.StIndex(idx)),
+			at(gen.Func("sort_by", gen.Func("sort_by", x(), gen.ExpRef(gen.Field("v"))), k()), gen.StIndex(idx), gen.StField("v")),
+		)
+	}
+	trees = append(trees,
+		at(gen.Func("max_by", x(), k()), gen.StField("v")), at(gen.Func("min_by", x(), k()), gen.StField("v")), gen.Func("max", at(x(), gen.StListStar(), gen.StField("k"))), gen.Func("min", gen.Func("map", k(), x())),
+		gen.Func("length", at(x(), gen.StFilter(gen.Field("k")))), gen.Func("length", at(x(), gen.StListStar(), gen.StField("k"))), gen.Func("length", gen.Func("map", k(), x())),
+		gen.Not(gen.Not(nn())), gen.Not(gen.Not(gen.Field("z"))), gen.Or(nn(), nn()), gen.And(ss(), ss()), gen.Cmp("==", x(), x()), gen.Cmp("!=", nn(), nn()), gen.Cmp("<=", gen.Field("n"), gen.Field("n")), gen.Cmp("<", gen.Field("z"), gen.Field("z")),
+		at(gen.MultiList(x()), gen.StIndex(0)), at(gen.MultiList(nn(), ss()), gen.StIndex(1)), at(gen.MultiHash(keyA("k"), []*gen.Expr{x()}), gen.StField("k")), at(gen.MultiHash(keyA("k"), []*gen.Expr{gen.Field("z")}), gen.StField("k")),
+		gen.Pipe(x(), gen.Current()), gen.Pipe(gen.Current(), x()), gen.Pipe(gen.Pipe(x(), gen.Current()), gen.Current()), at(nn(), gen.StSliceS("", "", "")), at(nn(), gen.StSliceS("", "", "1")), at(nn(), gen.StSliceS("0", "", "")), at(gen.Field("s"), gen.StSliceS("", "", "")),
+		at(nn(), gen.StSliceS("", "", "-1"), gen.StSliceS("", "", "-1")), gen.Func("reverse", gen.Func("reverse", nn())), gen.Func("reverse", gen.Func("reverse", gen.Field("s"))), gen.Func("to_array", gen.Func("to_array", nn())), gen.Func("to_array", gen.Func("to_array", gen.Field("n"))),
+		gen.Func("not_null", x()), gen.Func("not_null", gen.Field("z"), gen.Field("z")), gen.Func("merge", gen.Field("o")), gen.Func("merge", gen.Field("o"), gen.Field("o")), gen.Func("length", gen.Func("keys", gen.Field("o"))), gen.Func("length", gen.Func("values", gen.Field("o"))),
+		at(x(), gen.StFilter(gen.LitJSON("true"))), at(x(), gen.StFilter(gen.LitJSON("false"))), at(x(), gen.StFilter(gen.LitJSON("null")), gen.StField("v")), at(x(), gen.StFilter(gen.Current())), at(nn(), gen.StFilter(gen.Current())), at(nn(), gen.StFilter(gen.Cmp("==", gen.Current(), gen.Current()))),
+		gen.Func("join", gen.Raw(""), gen.MultiList(gen.Field("s"))), gen.Func("join", gen.Raw(","), ss()), at(gen.Field("o"), gen.StStar()), gen.Pipe(at(gen.Field("o"), gen.StStar()), gen.Func("length", gen.Current())),
+		gen.Func("sum", gen.MultiList(gen.Field("n"))), gen.Func("avg", gen.MultiList(gen.Field("n"), gen.Field("n"))), gen.Cmp("==", gen.Func("avg", nn()), gen.Func("sum", nn())), gen.Func("abs", gen.Func("abs", gen.Field("n"))), gen.Func("ceil", gen.Func("floor", gen.Field("n"))),
+		gen.Func("to_string", gen.Func("to_string", gen.Field("s"))), gen.Func("to_number", gen.Func("to_string", gen.Field("n"))), gen.Func("to_string", gen.Func("to_number", gen.Field("s"))), gen.Func("type", gen.Func("type", x())),
+		gen.Func("contains", nn(), gen.Field("n")), gen.Func("contains", at(x(), gen.StListStar(), gen.StField("k")), gen.Field("n")), gen.Func("length", at(x(), gen.StFilter(gen.Cmp("==", gen.Field("k"), gen.Field("k"))))),
+		at(x(), gen.StListStar(), gen.StField("k"), gen.StIndex(0)), at(x(), gen.StFlatten(), gen.StFlatten()), at(x(), gen.StListStar(), gen.StMultiList(gen.Field("k")), gen.StFlatten()), at(gen.Paren(at(x(), gen.StListStar())), gen.StListStar(), gen.StField("k")),
+		at(x(), gen.StSliceS("0", "1", ""), gen.StIndex(0)), gen.Pipe(at(x(), gen.StSliceS("0", "1", "")), at(nil, gen.StIndex(0))), at(x(), gen.StSliceS("-1", "", ""), gen.StField("v")), gen.Pipe(at(x(), gen.StSliceS("-1", "", "")), at(nil, gen.StIndex(0), gen.StField("v"))),
+		gen.Or(gen.LitJSON("null"), x()), gen.And(gen.LitJSON("true"), x()), gen.Or(gen.LitJSON("false"), gen.Field("z")), gen.And(gen.LitJSON("[]"), x()), gen.Not(gen.LitJSON("null")), gen.Cmp("==", gen.LitJSON("1"), gen.LitJSON("1")), gen.Cmp("<", gen.LitJSON("1"), gen.Raw("1")),
+		gen.Func("length", gen.Raw("h\u00e9")), gen.Func("sort", gen.LitJSON("[3,1,2]")), gen.Func("max_by", gen.LitJSON(`[{"k":1,"v":"a"},{"k":1,"v":"b"}]`), k()), at(gen.Func("sort_by", gen.LitJSON(`[{"k":1,"v":"a"},{"k":1,"v":"b"},{"k":0,"v":"c"}]`), k()), gen.StIndex(-1), gen.StField("v")),
+	)
+	row := func(kv interface{}, v string) interface{} { return map[string]interface{}{"k": kv, "v": v} }
+	mk := func(xs []interface{}, nn []interface{}, ss []interface{}, n interface{}, s interface{}, o interface{}) interface{} {
+		return map[string]interface{}{"x": xs, "nn": nn, "ss": ss, "n": n, "s": s, "o": o, "z": nil}
+	}
+	f := func(v float64) interface{} { return v }
+	docs := []interface{}{
+		// the largest and the smallest key are each held by several elements
+		mk([]interface{}{row(f(41), "jon"), row(f(7), "amy"), row(f(41), "kim"), row(f(7), "bo"), row(f(20), "cy")}, []interface{}{f(3), f(1), f(3), f(1)}, []interface{}{"b", "a", "b", "a"}, f(3), "1", map[string]interface{}{"p": f(1), "q": nil}),
+		mk([]interface{}{row("b", "1st"), row("a", "2nd"), row("b", "3rd"), row("a", "4th")}, []interface{}{f(-0.5)}, []interface{}{""}, f(-0.5), "h\u00e9llo", map[string]interface{}{}),
+		// a null key, a missing key, null elements
+		mk([]interface{}{row(f(1), "a"), row(nil, "b"), map[string]interface{}{"v": "c"}, row(f(0), "d")}, []interface{}{f(0), f(2)}, []interface{}{"x"}, f(0), "", map[string]interface{}{"p": []interface{}{}}),
+		mk([]interface{}{row(f(2), "a"), nil, row(f(1), "b")}, []interface{}{}, []interface{}{}, f(1), "abc", map[string]interface{}{"a": f(1), "b": f(2), "c": f(3)}),
+		mk([]interface{}{}, []interface{}{f(1), "x"}, []interface{}{"a", f(1)}, "1", f(5), nil),
+		mk([]interface{}{row(f(5), "only")}, []interface{}{f(2), f(2), f(2)}, []interface{}{"same", "same"}, f(2), "same", map[string]interface{}{"k": "v"}),
+		mk([]interface{}{[]interface{}{row(f(1), "n1")}, []interface{}{row(f(2), "n2"), []interface{}{row(f(3), "n3")}}}, []interface{}{f(1), f(2), f(3), f(4), f(5), f(6), f(7), f(8), f(9), f(10), f(11), f(12), f(13)}, []interface{}{"c", "b", "a"}, f(13), "13", map[string]interface{}{"o": map[string]interface{}{}}),
+		map[string]interface{}{"x": "not a list", "nn": nil, "ss": f(1), "n": nil, "s": nil, "o": []interface{}{}, "z": false},
+		nil,
+	}
+	return trees, docs
 }
